@@ -78,5 +78,9 @@ package layout
 //@   ensures conserved: linesum(res, len(res)) == lsum(lineGroups, len(lineGroups))
 //@   loop 0:
 //@     invariant linesum(lines, len(lines)) == lsum(lineGroups, $i)
+//@   loop 1:
+//@     invariant same(line.Fragments, fragments)
+//@   loop 2:
+//@     invariant same(line.Fragments, fragments)
 //@   loop 4:
 //@     invariant linesum(lines, len(lines)) == entry(linesum(lines, len(lines))) && len(lines) == entry(len(lines))
